@@ -1,6 +1,7 @@
 package checks
 
 import (
+	"encoding/json"
 	"fmt"
 	"strings"
 	"time"
@@ -491,11 +492,45 @@ func c02Run(c *engine.Ctx) {
 		}
 	}
 	c.Sample(map[string]any{"program": fmt.Sprintf(wrappers[2], computed[0])})
+
+	// empty arrays as a JSON decoder makes them (no backing store): a constructed empty array must still not pass for
+	// the empty array at the current location
+	if c.MineIdx(7) {
+		emptySources := []string{"(.a | [.[]] | .[0])", "(.a | [] | .[0])", "(.a | map(.) | .[0])", "(.a | tojson | fromjson | .[0])", "(.a | [.[]])", "(.a | [])", "(.a | map(.))", "(.a | [.[]] | .[1:])", "(.a | [limit(0; 1)] | .[0])"}
+		for _, src := range emptySources {
+			for _, w := range []string{"path(%s)", "%s = 1", "%s |= 1", "del(%s)", "[path(%s)]"} {
+				prog := fmt.Sprintf(w, src)
+				for _, text := range []string{`{"a":[],"b":[]}`, `{"a":[]}`, `{"a":[],"b":{"a":[]}}`} {
+					key := "empty-identity\t" + prog + "\t" + text
+					c.Eval()
+					var decoded any
+					json.Unmarshal([]byte(text), &decoded) // empty arrays of capacity 0, as the command reads them
+					o := RunText(prog, decoded, ImplBudget)
+					c.DistinctN(1)
+					if o.Err != nil || o.Panic != "" {
+						continue
+					}
+					// the recorded finding: with a backing store under the same empty arrays the error is raised
+					kind := "invalid-path-accepted"
+					if withStore := RunText(prog, univ.CopySpare(univ.J(text)), ImplBudget); withStore.Err != nil {
+						kind = "deviation:empty-array-identity"
+					}
+					c.Violation(key, kind, map[string]any{"query": prog, "input_text": text, "why": "no invalid-path error for a constructed empty array at a location that holds an empty array: " + o.String()})
+				}
+			}
+		}
+	}
 }
 
 func c02Replay(v *engine.Violation) (bool, string) {
 	d := v.Detail
 	in := univ.FromTagged(d["input"])
+	if text, ok := d["input_text"].(string); ok {
+		var decoded any
+		json.Unmarshal([]byte(text), &decoded)
+		o := RunText(d["query"].(string), decoded, ImplBudget)
+		return o.Err == nil && o.Panic == "", o.String()
+	}
 	switch v.Kind {
 	case "path-law":
 		msg := c02PathLaw(d["p"].(string), in)
